@@ -87,7 +87,7 @@ def build(targets, jobs=16, timeout=1500):
     t0 = time.time()
     p = subprocess.run(["make", "-C", BUILD, f"-j{jobs}", "-k"] + list(targets),
                        stdout=subprocess.PIPE, stderr=subprocess.STDOUT,
-                       text=True, timeout=timeout)
+                       text=True, errors="replace", timeout=timeout)
     return p.returncode == 0, p.stdout, time.time() - t0
 
 
